@@ -43,7 +43,7 @@ pub fn oracle(c: &ProbeCase, obs: &mut Obs, nontrivial: bool, counted: bool) -> 
     Verdict::Pass
 }
 
-pub const NAME_POOL: &[&str] = &["", "a", "A", "ab", "a ", " a", "b", "feature1", "Feature1", "feature10", "feature", "vec![]", "[]", "skip", "ａ", "a\u{301}"];
+pub const NAME_POOL: &[&str] = &["o'brien", "o", "", "a", "A", "ab", "a ", " a", "b", "feature1", "Feature1", "feature10", "feature", "vec![]", "[]", "skip", "ａ", "a\u{301}"];
 
 fn base_cfg(targets: &[&str]) -> Cfg {
     let mut c = Cfg::simple("<", ">");
@@ -108,7 +108,7 @@ fn skip_cases() -> Vec<ProbeCase> {
                 }
             }
             // the word inside quoted values has no effect
-            for inert in ["c='skip'", "c=\"skip\"", "data-x='a skip b'", "c=' skip '", "c='skip=1'"] {
+            for inert in ["c='skip'", "c=\"skip\"", "data-x='a skip b'", "c=' skip '", "c='skip=1'", "note=\"don't skip this one\"", "c='say \"no\" skip now'", "c=\"it's skip\""] {
                 for pos in 0..=l.len() {
                     let mut l2: Vec<&str> = l.clone();
                     l2.insert(pos, inert);
@@ -180,6 +180,9 @@ pub fn check(ctx: &mut Ctx) {
             let cfg = base_cfg(set);
             for q in NAME_POOL {
                 for quote in ['\'', '"'] {
+                    if q.contains(quote) {
+                        continue;
+                    }
                     let src = format!("A<rm name={quote}{q}{quote}>X</rm>B");
                     let member = set.contains(q);
                     let c = ProbeCase { expect_out: if member { "AB".into() } else { src.clone() }, src, cfg: cfg.clone(), why: format!("name {q:?} {} the target set", if member { "is a member of" } else { "is not in" }) };
